@@ -60,12 +60,26 @@ pub struct Tst {
 pub enum Item {
     Fixture(Fx),
     Test(Tst),
-    /// `from <module> import *`
-    Star { module: String },
+    /// `from <module> import *`; `target` = workspace-relative path of the module file the
+    /// generator means (ground truth for the reference model)
+    Star {
+        module: String,
+        #[serde(default)]
+        target: Option<String>,
+    },
     /// `from <module> import a, b`
-    Import { module: String, names: Vec<String> },
+    Import {
+        module: String,
+        names: Vec<String>,
+        #[serde(default)]
+        target: Option<String>,
+    },
     /// `pytest_plugins = [...]`
-    Plugins { modules: Vec<String> },
+    Plugins {
+        modules: Vec<String>,
+        #[serde(default)]
+        targets: Vec<Option<String>>,
+    },
     /// `pytestmark = pytest.mark.usefixtures(...)`
     Mark { names: Vec<String> },
     /// verbatim text (must end with a newline)
@@ -166,13 +180,13 @@ pub fn render(items: &[Item]) -> Rendered {
                     w.ln("");
                 }
             }
-            Item::Star { module } => w.ln(&format!("from {} import *", module)),
-            Item::Import { module, names } => {
+            Item::Star { module, .. } => w.ln(&format!("from {} import *", module)),
+            Item::Import { module, names, .. } => {
                 if !names.is_empty() {
                     w.ln(&format!("from {} import {}", module, names.join(", ")))
                 }
             }
-            Item::Plugins { modules } => {
+            Item::Plugins { modules, .. } => {
                 let q: Vec<String> = modules.iter().map(|m| format!("\"{}\"", m)).collect();
                 w.ln(&format!("pytest_plugins = [{}]", q.join(", ")));
             }
@@ -326,11 +340,13 @@ pub struct GenOpts {
     pub marks: bool,
     pub body_uses: bool,
     pub assign_style: bool,
+    /// dependencies only point to names later in the pool: no dependency cycle can arise
+    pub acyclic: bool,
 }
 
 impl Default for GenOpts {
     fn default() -> Self {
-        GenOpts { max_fixtures: 3, max_tests: 2, self_dep_per_mille: 150, dup_names: false, scopes: true, alias: true, in_class: true, marks: true, body_uses: true, assign_style: true }
+        GenOpts { max_fixtures: 3, max_tests: 2, self_dep_per_mille: 150, dup_names: false, scopes: true, alias: true, in_class: true, marks: true, body_uses: true, assign_style: true, acyclic: false }
     }
 }
 
@@ -354,7 +370,11 @@ pub fn gen_items(rng: &mut Rng, names: &[String], is_test_file: bool, o: &GenOpt
         }
         used.push(func.clone());
         let mut deps: Vec<String> = subset(rng, names, 2).into_iter().filter(|d| *d != func).collect();
-        if rng.chance(o.self_dep_per_mille) {
+        if o.acyclic {
+            let pos = |n: &String| names.iter().position(|x| x == n).unwrap_or(0);
+            let me = pos(&func);
+            deps.retain(|d| pos(d) > me);
+        } else if rng.chance(o.self_dep_per_mille) {
             deps.insert(rng.below(deps.len() + 1), func.clone());
         }
         let style = if o.assign_style && rng.chance(60) { 2 } else { rng.below(2) as u8 };
